@@ -143,12 +143,15 @@ def leaf_particles(tc):
     return m
 
 
-def oracle_c02(tc, calls):
+def oracle_c02(tc, calls, lp_src=None, lp_tgt=None):
     """every operator call receives geometrically consistent arguments (from the impl's own lines)"""
     d, H, per = tc.d, tc.H, tc.per
     L = H - 1
-    lp = leaf_particles(tc)
+    lp_all = leaf_particles(tc) if lp_src is None else None
+    lp_src = lp_all if lp_src is None else lp_src
+    lp_tgt = lp_all if lp_tgt is None else lp_tgt
     for c in calls:
+        lp = lp_src if c.op == "P2M" else lp_tgt
         if c.op in ("P2M", "L2P", "P2PInner"):
             if "c" in c.extra and [int(x) for x in c.extra["c"].split(",")] != O.unbox(c.tgt, d):
                 return "%s leaf %d header box coordinate %s != %s" % (c.op, c.tgt, c.extra["c"], O.unbox(c.tgt, d))
@@ -213,8 +216,8 @@ def oracle_c02(tc, calls):
                 return "P2P source header coordinate wrong"
             if not c.sparts or not c.tparts:
                 return "P2P with an empty side"
-            if c.op == "P2P" and (sorted(c.sparts) != sorted(lp.get(c.src, [])) or sorted(c.tparts) != sorted(lp.get(c.tgt, []))):
-                return "P2P %d<->%d received wrong particle sets" % (c.src, c.tgt)
+            if sorted(c.sparts) != sorted(lp_src.get(c.src, [])) or sorted(c.tparts) != sorted(lp_tgt.get(c.tgt, [])):
+                return "%s %d->%d received wrong particle sets" % (c.op, c.src, c.tgt)
     return None
 
 
